@@ -22,7 +22,7 @@ class Script(Session):
     def __init__(self, label, mode="proof", sizes=None, pinned=None, native=None):
         super().__init__(label)
         self.mode = mode
-        self.sizes = sizes or {}
+        self.sizes = sizes if sizes is not None else {}
         self.pinned = pinned or {}
         self.native = native
         self.native_out = native
@@ -45,7 +45,10 @@ class Script(Session):
         if self.mode == "replay":
             return self._rec(name, int(self.pinned[name]))
         if self.mode == "refute":
-            v = self.sizes.get(name)
+            try:
+                v = self.sizes[name]
+            except KeyError:
+                v = None
             if v is None:
                 raise VerifError(f"no concrete size for {name}")
             if v < lo or (hi is not None and not isinstance(hi, (z3.ExprRef, SInt)) and v > hi):
@@ -101,7 +104,29 @@ class Script(Session):
         return self._rec(name, a)
 
     # -- goals ------------------------------------------------------------
+    def structural_failure(self, name):
+        """the executed code does not have the shape the contract talks about (e.g. two running products, an exception):
+        a failed obligation unless the path is infeasible"""
+        import time as _t
+        c = ctx()
+        t0 = _t.time()
+        s = z3.Solver()
+        s.set("timeout", 5000)
+        for h in c.hyps():
+            s.add(h)
+        r = s.check()
+        full = f"{self.label}/{name}/path{self.paths}"
+        if r == z3.unsat:
+            res = Result(full, "proved", "z3(infeasible path)", _t.time() - t0)
+        else:
+            res = Result(full, "failed", "structural", _t.time() - t0, model=s.model() if r == z3.sat else None,
+                         detail="code shape differs from the contract's")
+        self.results.append(res)
+        return res
+
     def holds(self, name, goal, extra=()):
+        if goal is False and self.mode != "replay" and not extra:
+            return self.structural_failure(name)
         if self.mode == "replay":
             return self._replay_goal(name, goal, extra)
         return self.prove(name, goal, extra=extra)
@@ -134,10 +159,13 @@ class Script(Session):
         self.replay_verdicts.append((name, v))
         return v
 
-    def known(self, kid, name, goal, carve):
-        """clause covered by a recorded known finding `kid`: the clause must hold OUTSIDE the carve-out (proved here);
+    def known(self, kid, name, goal, carve=None):
+        """clause covered by a recorded known finding `kid`: the clause must hold OUTSIDE the carve-out (proved here,
+        unless the carve-out is the whole regime of this script variant: carve=None);
         inside it the recorded witness is replayed natively by the check driver."""
-        r = self.holds(name + " [outside carve-out " + kid + "]", bor(carve, goal))
+        r = None
+        if carve is not None:
+            r = self.holds(name + " [outside carve-out " + kid + "]", bor(carve, goal))
         full = self.holds(name, goal)
         if full is not None and hasattr(full, "status"):
             full.known_id = kid
